@@ -54,7 +54,12 @@ impl Axis {
     }
 }
 
+/// The source axes that vary (point axes - min == default == max - are dropped: no table is indexed by them).
 pub fn axes_of(man: &Value) -> Vec<Axis> {
+    axes_of_all(man).into_iter().filter(|a| !(a.min == a.default && a.default == a.max)).collect()
+}
+
+pub fn axes_of_all(man: &Value) -> Vec<Axis> {
     man["axes"]
         .as_array()
         .map(|a| {
@@ -283,13 +288,30 @@ pub fn check(data: &[u8], man: &Value, opts: &[String]) -> Out {
     }
 
     // ---------------------------------------------------------------- C08
-    let axes = axes_of(man);
-    let fvar_axes = if axes.is_empty() { vec![] } else { vf::axes(&font).unwrap_or_default() };
-    if !axes.is_empty() {
-        if fvar_axes.len() != axes.len() {
-            out.viol("C08", format!("fvar has {} axes, the source {}", fvar_axes.len(), axes.len()));
+    // An axis on which nothing varies (min == default == max, a "point" axis) may be left out of fvar - the statement
+    // is about the axes the font has; when it is kept it must still carry the source's bounds.  Every other axis must
+    // be there, in source order, and everything below pairs source and font axes by tag through that order.
+    let all_axes = axes_of_all(man);
+    let all_fvar = if all_axes.is_empty() { vec![] } else { vf::axes(&font).unwrap_or_default() };
+    let is_point = |a: &Axis| a.min == a.default && a.default == a.max;
+    let in_font: Vec<&Axis> = all_axes.iter().filter(|a| !is_point(a) || all_fvar.iter().any(|fa| fa.tag == a.tag)).collect();
+    if all_axes.iter().any(is_point) {
+        out.stat("c08_point_axes", all_axes.iter().filter(|a| is_point(a)).count() as f64);
+    }
+    if !all_axes.is_empty() {
+        if let (Ok(fvar), Ok(avar)) = (font.fvar(), font.avar()) {
+            if avar.axis_segment_maps().iter().count() != fvar.axis_count() as usize {
+                out.viol("C08", format!("avar has {} segment maps for {} fvar axes", avar.axis_segment_maps().iter().count(), fvar.axis_count()));
+            }
         }
-        for (a, fa) in axes.iter().zip(&fvar_axes) {
+    }
+    let axes = axes_of(man);
+    let fvar_axes = all_fvar;
+    if !all_axes.is_empty() {
+        if fvar_axes.len() != in_font.len() || fvar_axes.iter().zip(&in_font).any(|(fa, a)| fa.tag != a.tag) {
+            out.viol("C08", format!("fvar axes {:?} but the source has {:?}", fvar_axes.iter().map(|a| a.tag.clone()).collect::<Vec<_>>(), in_font.iter().map(|a| a.tag.clone()).collect::<Vec<_>>()));
+        }
+        for (a, fa) in in_font.iter().map(|a| *a).zip(&fvar_axes) {
             // fvar stores 16.16 fixed point and the compiler carries user coordinates as f32
             let fx = |x: f64, y: f64| (x - y).abs() > (1.0f64 / 65536.0).max(x.abs() / 8388608.0);
             if a.tag != fa.tag || fx(a.min, fa.min) || fx(a.default, fa.default) || fx(a.max, fa.max) {
@@ -342,9 +364,18 @@ pub fn check(data: &[u8], man: &Value, opts: &[String]) -> Out {
                 // local slope of the composite map in normalized space
                 let eps = (a.max - a.min) * 1e-4;
                 let (u0, u1) = ((u - eps).max(a.min), (u + eps).min(a.max));
-                let dx = (fa.default_normalize(u1) - fa.default_normalize(u0)).abs().max(1e-6);
-                let dy = (a.normalize_design(a.user_to_design(u1)) - a.normalize_design(a.user_to_design(u0))).abs();
-                let slope = (dy / dx).min(64.0);
+                // (the steeper one-sided slope: at a bend the two sides differ).  Three F2Dot14 roundings meet: the
+                // coordinate being normalized and the stop's input (each half a quantum, magnified by the slope), and
+                // the stop's output (half a quantum) - no cap on the slope, a 200x segment really is that coarse
+                let sl = |p: f64, q: f64| {
+                    let dx = (fa.default_normalize(q) - fa.default_normalize(p)).abs().max(1e-9);
+                    (a.normalize_design(a.user_to_design(q)) - a.normalize_design(a.user_to_design(p))).abs() / dx
+                };
+                let slope = if u1 > u0 { sl(u0, u).max(sl(u, u1)).max(sl(u0, u1)) } else { 1.0 };
+                let slope = if slope.is_finite() { slope } else { 1.0 };
+                if slope > 64.0 {
+                    out.stat("c08_coords_on_steep_segments", 1.0);
+                }
                 let bound = (1.0 + slope) / 16384.0 * 1.5 + 1e-9;
                 out.stat("c08_coords", 1.0);
                 if (got - want).abs() > bound {
